@@ -267,8 +267,17 @@ def run_session(case, ang):
     angs = [ang, angle_sums(other) if other else None]
     out = {"other_tables": tables(meshes[1]) if meshes[1] is not None else None, "steps": []}
     det = None
+    moved = False
+    alt_ang = None
     for st in ses["steps"]:
         try:
+            if st.get("moved") and not moved:
+                import mouette as M
+                sc = 2.0 ** case.get("scale_exp", 0)
+                for v, p in enumerate(ses["alt_coords"]):
+                    meshes[0].vertices[v] = M.Vec(float(p[0]) * sc, float(p[1]) * sc, float(p[2]) * sc)
+                moved = True
+                alt_ang = angle_sums(dict(case, coords=ses["alt_coords"]))
             if det is None:
                 det = make_det(st)
             else:
@@ -277,7 +286,8 @@ def run_session(case, ang):
                 det.corner_order = st["corner_order"]
                 det.compute_feature_graph = st["graph"]
             do_run(det, meshes[st["on"]], st)
-            out["steps"].append(observe(det, meshes[st["on"]], st, angs[st["on"]]))
+            out["steps"].append(observe(det, meshes[st["on"]], st,
+                                        alt_ang if (st["on"] == 0 and moved) else angs[st["on"]]))
         except Exception as ex:
             out["steps"].append({"exc": "%s: %s" % (type(ex).__name__, str(ex)[:80])})
     return out
